@@ -159,6 +159,8 @@ impl MCOptimiser {
         kt: f64,
         rng: &mut R,
     ) -> Option<f64> {
+        #[cfg(feature = "verif")]
+        crate::verif_hooks::tag(crate::verif_hooks::Draw::Threshold);
         let threshold: f64 = rng.gen();
 
         match new {
@@ -184,6 +186,8 @@ impl MCOptimiser {
         };
 
         let mut rng = Pcg64Mcg::seed_from_u64(self.seed);
+        #[cfg(feature = "verif")]
+        let mut rng = crate::verif_hooks::HookRng::new(rng);
         let mut rejections: u64 = 0;
 
         let mut kt: f64 = self.kt_start;
@@ -200,6 +204,8 @@ impl MCOptimiser {
             for _ in 0..self.inner_steps {
                 // Choose a basis at random to modify
                 // This is needed later if we need to undo the change
+                #[cfg(feature = "verif")]
+                crate::verif_hooks::tag(crate::verif_hooks::Draw::Index);
                 let basis_index: usize = basis_distribution.sample(&mut rng);
 
                 // Make a random modification to the selected basis
